@@ -55,7 +55,7 @@ func main() {
 		c.Budget = time.Duration(v) * time.Second
 	}
 	if *worker {
-		engine.Serve(func(job json.RawMessage) json.RawMessage { return chk.Work(c, job) })
+		engine.Serve(func(job json.RawMessage) json.RawMessage { return chk.Dispatch(c, job) })
 		return
 	}
 	if *replay != "" {
@@ -68,11 +68,7 @@ func main() {
 			Replay json.RawMessage `json:"replay"`
 		}
 		json.Unmarshal(b, &f)
-		if chk.ReplayFn == nil {
-			fmt.Fprintln(os.Stderr, "no replay function for this property")
-			os.Exit(2)
-		}
-		viol, msg := chk.ReplayFn(c, f.Replay)
+		viol, msg := chk.ReplayStored(c, f.Replay)
 		fmt.Println(msg)
 		if viol {
 			fmt.Printf("VIOLATION property=%s replay=%s\n", *prop, *replay)
